@@ -798,6 +798,22 @@ impl<'a> Run<'a> {
             builder = builder.root_key_id(id);
         }
         let root = spec.key.keypair();
+        if self.mon.c15 {
+            // two tokens minted independently from identical contents (next key from the OS)
+            if let (Ok(x), Ok(y)) = (builder.clone().build(&root), builder.clone().build(&root)) {
+                self.stats.bump("c15.os_rng_probe_mint");
+                self.stats.oracle_evals += 1;
+                if x.revocation_identifiers() == y.revocation_identifiers() {
+                    self.violations.push(Violation {
+                        property: "C15".to_string(),
+                        class: "revocation-id-collision".to_string(),
+                        event: Some(self.cur),
+                        detail: "two tokens minted with build() from identical contents share their identifier".to_string(),
+                        focus: None,
+                    });
+                }
+            }
+        }
         let res = builder.build_with_key_pair(
             &root,
             biscuit_auth::datalog::SymbolTable::new(),
@@ -1174,6 +1190,35 @@ impl<'a> Run<'a> {
             },
         };
         let verified_api = matches!(self.slots[token].obj, Obj::V(_));
+        // C15 uniqueness through the entry points that draw the next key from the OS: two
+        // holders attaching the same response to the same token get different identifiers
+        // (only the boolean enters the run's record, never the drawn values)
+        if self.mon.c15 && res.is_ok() && !sealed {
+            let twice: Option<(Vec<u8>, Vec<u8>)> = match &self.slots[token].obj {
+                Obj::V(b) => match (ThirdPartyBlock::verif_from_bytes(&bytes), ThirdPartyBlock::verif_from_bytes(&bytes)) {
+                    (Ok(t1), Ok(t2)) => match (b.append_third_party(expected_key, t1), b.append_third_party(expected_key, t2)) {
+                        (Ok(x), Ok(y)) => Some((x.revocation_identifiers().pop().unwrap_or_default(), y.revocation_identifiers().pop().unwrap_or_default())),
+                        _ => None,
+                    },
+                    _ => None,
+                },
+                Obj::U(u) => match (u.append_third_party(&bytes), u.append_third_party(&bytes)) {
+                    (Ok(x), Ok(y)) => Some((x.revocation_identifiers().pop().unwrap_or_default(), y.revocation_identifiers().pop().unwrap_or_default())),
+                    _ => None,
+                },
+            };
+            if let Some((x, y)) = twice {
+                self.stats.bump("c15.os_rng_probe_third_party");
+                self.stats.oracle_evals += 1;
+                if x == y {
+                    self.violate(
+                        "C15",
+                        "revocation-id-collision",
+                        format!("slot {token}: attaching the same third-party block twice through append_third_party() gives the same identifier"),
+                    );
+                }
+            }
+        }
         match res {
             Ok(obj) => {
                 self.stats.bump("tp.attach_ok");
@@ -1215,6 +1260,26 @@ impl<'a> Run<'a> {
                             );
                         }
                     }
+                }
+                // the unverified API checks nothing: a registered payload with a damaged
+                // signature is attached too. Whether the result is a legitimate token is decided
+                // by R1, not by the library.
+                let r1_valid = verified_api || genuine_signature || {
+                    let rroot = self.scn.issuers[self.slots[token].issuer].key.rkey();
+                    refchain::verify(&obj_bytes, &rroot).is_ok()
+                };
+                if in_registry && !r1_valid {
+                    self.stats.bump("tp.damaged_signature_attached_unverified");
+                    let root = self.root_pub(self.slots[token].issuer);
+                    if self.mon.c07 && Biscuit::from(&obj_bytes, root).is_ok() {
+                        self.violate(
+                            "C07",
+                            "tp-block-not-in-registry",
+                            format!("token built by UnverifiedBiscuit::append_third_party from a response with a damaged signature (fault {:?}) verifies", fault),
+                        );
+                    }
+                    self.stats.trace.push("tp_attach:damaged".to_string());
+                    return;
                 }
                 if !in_registry {
                     self.stats.bump("tp.unregistered_attached_unverified");
@@ -1468,6 +1533,17 @@ impl<'a> Run<'a> {
             self.check_c12(idx);
             if idx % 3 == 0 {
                 self.check_c12_byzantine(idx);
+            }
+        }
+        // C07's isolation clause: a third-party block neither sees nor extends the token's
+        // tables. Observable as: tokens that contain one still mean the same in memory and
+        // after a round trip, and every reference resolves to what its author wrote.
+        if self.mon.c07 && self.slots[idx].ghost.iter().any(|g| g.external.is_some()) {
+            let before = self.violations.len();
+            self.check_c12(idx);
+            for v in self.violations[before..].iter_mut() {
+                v.property = "C07".to_string();
+                v.class = format!("tp-tables-{}", v.class);
             }
         }
         if self.mon.c08 && self.slots[idx].sealed && op == "seal" {
